@@ -37,6 +37,8 @@ def _digests(mod, tier, seed, n, workers):
 def main(rest, args):
     from simkit.main import CHECKS
     what = rest[0]
+    if what == "engine":
+        return engine_selftest()
     prop = rest[1]
     mod = importlib.import_module(CHECKS[prop])
     n = args.runs or 200
@@ -69,3 +71,115 @@ def main(rest, args):
         return 1 if bad or herr else 0
     print("unknown selftest", what)
     return 2
+
+
+# ---------------------------------------------------------------------------
+# Engine self-test on toys with known answers:  ./run selftest engine X
+# ---------------------------------------------------------------------------
+
+def engine_selftest():
+    """The scheduler on three toys whose answers are known:
+    1. lost update: two actors do read-yield-write on a counter.  Some
+       schedule loses an update; seeded search must find one, the replay of
+       its decision list must reproduce it exactly, and with a SimLock around
+       the critical section no schedule may lose one.
+    2. kill = nothing runs again: an actor killed inside try/finally must not
+       execute its finally block before the verdict (only at teardown).
+    3. a killed lock holder leaves the others blocked: reported as deadlock,
+       not as a hang of the simulator."""
+    import random
+    from simkit import baton
+    ok = True
+
+    def lost_update(seed, locked, decisions=None):
+        box = {"n": 0}
+        chooser = baton.ReplayChooser(decisions) if decisions is not None else \
+            baton.UniformChooser(random.Random(seed))
+        s = baton.Scheduler(chooser, 10000)
+        lock = baton.SimLock(s, "L")
+
+        def body(a):
+            for _ in range(3):
+                if locked:
+                    lock.acquire()
+                v = box["n"]
+                s.yield_point("read")
+                box["n"] = v + 1
+                s.yield_point("write")
+                if locked:
+                    lock.release()
+        for name in ("A", "B"):
+            s.spawn(name, body, kind="thread")
+        s.run()
+        d, dec, reason = s.digest({}), list(s.decisions), s.stop_reason
+        s.teardown()
+        return box["n"], d, dec, reason
+
+    found = None
+    for seed in range(200):
+        n, d, dec, reason = lost_update(seed, locked=False)
+        if n != 6:
+            found = (seed, n, d, dec)
+            break
+    if not found:
+        print("engine: lost update NOT found in 200 seeds")
+        ok = False
+    else:
+        n2, d2, _, _ = lost_update(0, locked=False, decisions=found[3])
+        print("engine: lost update found at seed %d (counter %d); replay counter %d digest %s"
+              % (found[0], found[1], n2, "identical" if d2 == found[2] else "DIFFERENT"))
+        ok &= (n2 == found[1] and d2 == found[2])
+    bad = [seed for seed in range(200) if lost_update(seed, locked=True)[0] != 6]
+    print("engine: with the simulated lock, %d of 200 seeds lose an update" % len(bad))
+    ok &= not bad
+
+    # 2. kill semantics
+    trail = []
+    s = baton.Scheduler(baton.ReplayChooser(["V", "V", "W", "W", "W"]), 1000)
+
+    def victim(a):
+        try:
+            trail.append("in")
+            s.yield_point("p1")
+            s.yield_point("p2")
+            trail.append("after")
+        finally:
+            trail.append("finally")
+
+    def witness(a):
+        s.yield_point("w1")
+        s.kill(s.by_name["V"], False)
+        s.yield_point("w2")
+        trail.append("witness-done")
+    s.spawn("V", victim, kind="thread")
+    s.spawn("W", witness, kind="thread")
+    s.run()
+    before = list(trail)
+    s.teardown()
+    print("engine: kill: trail before teardown %r, after %r" % (before, trail))
+    ok &= ("finally" not in before and "after" not in trail and "witness-done" in before)
+
+    # 3. killed lock holder
+    s = baton.Scheduler(baton.ReplayChooser(["H", "H", "K", "O", "O", "O"]), 1000)
+    lock = baton.SimLock(s, "L")
+
+    def holder(a):
+        lock.acquire()
+        s.yield_point("holding")
+        lock.release()
+
+    def killer(a):
+        s.kill(s.by_name["H"], False)
+
+    def other(a):
+        lock.acquire()
+        lock.release()
+    for nm, fn in (("H", holder), ("K", killer), ("O", other)):
+        s.spawn(nm, fn, kind="thread")
+    s.run()
+    reason = s.stop_reason
+    s.teardown()
+    print("engine: killed lock holder -> stop reason %r" % reason)
+    ok &= (reason == "deadlock")
+    print("engine self-test", "passed" if ok else "FAILED")
+    return 0 if ok else 1
